@@ -198,7 +198,7 @@ CHECKS['C07'] = dict(
 
 NOT_APPLICABLE = {
     'C10': 'invariance under re-segmentation is an algebraic property of carried partial-block state inside asm/C '
-           'arithmetic; no clause of it is visible in code shape Each process-wide object is written at one site of its writer (no clear-then-refill transient, G9); no library code decides on imb_get_errno() (G6).',
+           'arithmetic; no clause of it is visible in code shape; the carried state (partial-block length, buffered bytes, running GHASH/Poly1305 accumulator, counter) is updated by run-time arithmetic inside assembly and C whose agreement with the one-shot result for every partition is a value property, which no rule of this family can bound - declined rather than claimed through a proxy',
 }
 UNDER_CONSTRUCTION = 'check not yet built in this round (planned in DESIGN.md §3); not claimed'
 
@@ -235,7 +235,8 @@ EXTRA = {
     'C20': ' Further clause (DESIGN 3a): each row of a self-test vector table carries one size token and a loop over one table reads no other (F7). Once IMB_ERR_SELFTEST is recorded nothing that resets the error code runs before the init returns (F1).',
     'C12': ' Further clause (DESIGN 3a): a synchronous burst helper named for a direction validates its jobs with that direction (V11).',
     'C17': ' Further clauses (DESIGN 3a): the per-manager half of the error code never depends on the process-wide half (G7); the session counter is advanced '
-           'with a LOCKed read-modify-write (G8).',
+           'with a LOCKed read-modify-write (G8). Each process-wide object is written at one site of its writer (no clear-then-refill transient, G9); '
+           'no library code decides on imb_get_errno() (G6).',
 }
 for _pid, _t in EXTRA.items():
     CHECKS[_pid]['text'] = CHECKS[_pid]['text'] + _t
